@@ -84,7 +84,8 @@ def random_cases(ctx):
     rng = ctx.rng
     for i in range(ctx.pick(300, 20000) // ctx.shard_count):
         version = [None, *VERSIONS][i % 6]
-        yield {"version": version, "steps": histories.rich_history(rng, version, rng.choice([20, 60, 150]))}
+        yield histories.with_reply_faults(rng, {"version": version,
+                                                "steps": histories.rich_history(rng, version, rng.choice([20, 60, 150]))})
     for i in range(ctx.pick(400, 100000) // ctx.shard_count):
         version = [None, *VERSIONS][i % 6]
         gen = histories.HistoryGen(rng, version)
